@@ -1,6 +1,7 @@
 package main
 
 import (
+	"sort"
 	"flag"
 	"fmt"
 	"os"
@@ -111,8 +112,11 @@ func debugFunc(P *Program, name string, timeout int, verbose, keep bool, seed in
 				if len(o.Model) > 0 {
 					var ks []string
 					for k, v := range o.Model {
-						ks = append(ks, k+"="+v)
+						if !strings.Contains(k, "[") || verbose {
+							ks = append(ks, k+"="+v)
+						}
 					}
+					sort.Strings(ks)
 					fmt.Println("         model:", strings.Join(ks, " "))
 				}
 				if verbose {
